@@ -55,7 +55,9 @@ def same_kind(ck, x, y, site):
 def eq(ck, a, b, naxes, site, tol=1e-7):
     ok = a.array.shape == b.array.shape and C.peq_all(a.array, b.array, naxes, tol)
     ck.check(ok, site + ":peq", C.short((a.array.tolist(), b.array.tolist()), 200))
-    if ok:
+    if ok and C.peq_all(a.array, b.array, naxes, 1e-12):
+        # the library's == has its own (tighter) tolerances: it is asked only when the two results agree far inside them - a chain of six
+        # projective maps may lose seven digits, which is accuracy, not inequality
         r, f = call(site + ":==", lambda: a == b)
         if f:
             ck.add(f)
